@@ -458,9 +458,13 @@ where
         let mut k = self.probs.len() - 1;
         for (i, &p) in self.probs.iter().enumerate() {
             cum += p;
-            if r <= cum {
+            // Only categories with positive probability can be selected; if rounding leaves
+            // `r` above the total, the last such category is returned.
+            if p > T::zero() {
                 k = i;
-                break;
+                if r < cum {
+                    break;
+                }
             }
         }
         k
